@@ -695,6 +695,7 @@ impl Vm {
     /// `lambda` - The lambda to emit bytecode to
     /// `expr` - The expression to quote.
     pub fn compile_quote(&mut self, lambda: &mut Lambda, expr: &Cell) -> Result<(), Error> {
+        check_constant(expr)?;
         lambda.emit(OpCode::MovImmediate);
         lambda.emit(self.heap.maybe_put_cell(expr));
         lambda.emit(VCell::Acc);
@@ -774,6 +775,7 @@ impl Vm {
             rest = rest.cdr().unwrap();
             count += 1;
         }
+        check_constant(rest)?;
         lambda.emit(OpCode::PushImmediate);
         lambda.emit(self.heap.maybe_put_cell(rest));
 
@@ -785,5 +787,33 @@ impl Vm {
         }
 
         Ok(())
+    }
+}
+
+/// Check Constant
+///
+/// A quoted datum becomes a heap constant, and only data has a constant form. A
+/// procedure, macro or continuation object can reach the compiler inside a list
+/// or vector handed to eval, e.g. (eval (list 'quote car)); it is rejected here
+/// because the heap has no way to store it as a constant.
+///
+/// # Arguments
+/// `expr` - The datum about to be quoted
+fn check_constant(expr: &Cell) -> Result<(), Error> {
+    let mut rest = expr;
+    loop {
+        match rest {
+            Cell::Procedure(_) | Cell::Macro | Cell::Continuation => {
+                return Err(InvalidSyntax(format!("{:#} can not be quoted", rest)));
+            }
+            Cell::Pair(car, cdr) => {
+                check_constant(car)?;
+                rest = cdr;
+            }
+            Cell::Vector(vector) => {
+                return vector.iter().try_for_each(check_constant);
+            }
+            _ => return Ok(()),
+        }
     }
 }
